@@ -161,6 +161,21 @@ Definition sstage (sa : sadd_flow) (sf : save_flow) (rows : table) (sync : bool)
 Definition sadd_flow_run (sa : sadd_flow) (sf : save_flow) (s : sst) (rows : table) (sync : bool) : sst :=
   fst (fold_left (sstage sa sf rows sync) (sa_stages sa) (s, None)).
 
+(* the same synced run when the table write fails: the file keeps its rows; memory is what the flow says *)
+Definition sstage_wfail (sa : sadd_flow) (sf : save_flow) (rows : table)
+           (a : sst * option table) (g : add_stage) : sst * option table :=
+  let '(s, pending) := a in
+  match g with
+  | SStore =>
+      match pending with
+      | None => a
+      | Some full => (mk_sst (match sf_mem sf with MemBeforeWrite => Some full | _ => s_mem s end) (s_file s), pending)
+      end
+  | _ => sstage sa sf rows true a g
+  end.
+Definition sadd_wfail_run (sa : sadd_flow) (sf : save_flow) (s : sst) (rows : table) : sst :=
+  fst (fold_left (sstage_wfail sa sf rows) (sa_stages sa) (s, None)).
+
 (* ---- operation histories interpreted through the flows (used by the correspondence with the
         REGENERATED flows, and by the refinement theorem with the model flows) ---- *)
 Inductive fop :=
